@@ -132,5 +132,24 @@ def run(ctx):
                         ctx.violation("resumed-iterations:same-sampler", f"history of the retry on the same sampler has {len(r3.history.beta)} iterations, uninterrupted {len(r.history.beta)}", rep3)
                 else:
                     ctx.violation(f"resume-raises:same-sampler:{r3.error[0]}", f"retrying on the same sampler after a fault at user call {kf} raised {r3.error[:2]}", rep3)
+    # single-precision runs, fresh and resumed from a mid-run payload (numerical check only)
+    n32 = 0
+    for cfg in sb.f32_cfgs(ctx, ctx.scale(10, 50)):
+        r = sr.do_run(cfg)
+        n32 += 1
+        ctx.count(sb.cfg_key(cfg), r.error is None, kind=f"float32/{cfg['kind']}/{cfg['ns']}")
+        if r.error is not None:
+            ctx.violation(f"float32-run-raises:{r.error[0]}", f"single-precision run raised {r.error[:2]}", {"cfg": cfg})
+            continue
+        check_history(ctx, r, "float32")
+        mids = [p for p in r.payloads if p["bytes"] is not None and not p["forced"]]
+        if mids and cfg["kind"] != "emcee_smc":
+            p = mids[len(mids) // 2]
+            r2 = sr.do_run(cfg, resume_from=p["bytes"], vid0=10000)
+            if r2.error is None:
+                check_history(ctx, r2, "float32-resumed", resumed_from=p["iteration"])
+            else:
+                ctx.violation(f"resume-raises:float32:{r2.error[0]}", f"resuming a single-precision run from iteration {p['iteration']} raised {r2.error[:2]}", {"cfg": cfg})
+    ctx.extra["float32_histories_checked"] = n32
     ctx.extra["resumed_histories_checked"] = nres
     ctx.extra["resumed_after_fault_checked"] = nlive
